@@ -190,6 +190,47 @@ func genC19() (string, []string) {
 `, id, nres, nres-1, chk.String())+checkArgs(n, id))
 		}
 	}
+	// natives that hand back (views of) the argument window they were given
+	for n := 1; n <= 4; n++ {
+		for _, style := range []string{"args", "reslice", "append"} {
+			m := n
+			ret := "args"
+			switch style {
+			case "reslice":
+				m = n - 1
+				ret = "args[1:]"
+			case "append":
+				m = n + 1
+				ret = "append(args, Int32(r[0]))"
+			}
+			if m == 0 {
+				continue
+			}
+			id := fmt.Sprintf("C19/newfunc/N%d->%s", n, style)
+			src, nres := script(n, m, false)
+			var chk strings.Builder
+			for j := 0; j < m; j++ {
+				want := fmt.Sprintf("a[%d]", j)
+				if style == "reslice" {
+					want = fmt.Sprintf("a[%d]", j+1)
+				}
+				if style == "append" && j == n {
+					want = "r[0]"
+				}
+				fmt.Fprintf(&chk, "\t\tverifAssert(rets[%d].t == TypeInt32 && rets[%d].num == float64(%s), \"%s/result\")\n", j+1, j+1, want, id)
+			}
+			add(fmt.Sprintf("nf_alias_%d_%s", n, style), prelude(n, 1)+fmt.Sprintf(`	vm.Set("main.nat", NewFunc(%d, %d, func(v *VM, args []Value) []Value { calls++; got = append(got, args...); return %s }))
+	if _, err := verifEval(vm, verifMkFS(nil), %q, 0); err != nil {
+		verifAssert(false, "%s/eval")
+		return
+	}
+`, n, m, ret, src, id)+callG(n, nres)+fmt.Sprintf(`	verifAssert(err == nil && len(rets) == %[2]d, "%[1]s/outcome")
+	if err == nil && len(rets) == %[2]d {
+		verifAssert(rets[0].num == float64(mark+1) && rets[%[3]d].num == float64(mark), "%[1]s/neighbours")
+%[4]s	}
+`, id, nres, nres-1, chk.String())+checkArgs(n, id))
+		}
+	}
 	// forms 1 and 2: raw stack natives
 	add("nf_raw_0_0", prelude(0, 0)+`	vm.Set("main.nat", NewFunc(0, 0, func(v *VM) { calls++ }))
 	if _, err := verifEval(vm, verifMkFS(nil), "func g(mark int) (int, int) { z := mark + 1; nat(); return z, mark }", 0); err != nil {
